@@ -405,5 +405,6 @@ theorem Reachable.cpKeys {b : Book} (r : Reachable b) : (keys b.cpFunds).Nodup :
     | ok u =>
       obtain ⟨mv, _, _, _, _, _, _, hcp, _⟩ := truncateAt_ok (b := b) (cut := cut) (by rw [hr])
       rw [hcp]; exact keys_newCpFunds b mv ih
+  | steps _ s ih => rw [s.cpFunds_eq]; exact ih
 
 end CModel.Book
